@@ -151,7 +151,7 @@ func genTextFor(r *rand.Rand, t reflect.Type, depth int) string {
 	case reflect.Uint, reflect.Uint8, reflect.Uint64:
 		return []string{"0", "1", "255", "256", "18446744073709551615", "-1", "1.5"}[r.Intn(7)]
 	case reflect.Float32, reflect.Float64:
-		return []string{"0", "1.5", "-0", "1e400", "1e-400", "3.4028235e38", "1e39", "123456789.123456789", "5e-324"}[r.Intn(9)]
+		return []string{"0", "1.5", "-0", "1e400", "1e-400", "3.4028235e38", "1e39", "123456789.123456789", "5e-324", "1e-7", "2.5e-9", "0.00000012", "1e21", "1e20", "1e-6", "123e-10", "-4.5E-08"}[r.Intn(17)]
 	case reflect.String:
 		return gen.SpellString(r, gen.HostileStrings[r.Intn(len(gen.HostileStrings))], gen.SpellRandom, r.Intn(10) == 0)
 	case reflect.Slice, reflect.Array:
